@@ -79,9 +79,24 @@ def z1(run: Run, prog: Program):
                     n.value.id == "self":
                 out.add("self." + n.attr)
         return out
+    aliases = {}
     for st in ast.walk(ua.node):
         if isinstance(st, ast.Assign):
             for tg in st.targets:
+                if isinstance(tg, (ast.Tuple, ast.List)):
+                    # a, b = x, y element-wise; otherwise every target depends
+                    # on the whole value
+                    vals = st.value.elts if isinstance(st.value, (ast.Tuple, ast.List)) \
+                        and len(st.value.elts) == len(tg.elts) else [st.value] * len(tg.elts)
+                    for t_, v_ in zip(tg.elts, vals):
+                        if isinstance(t_, ast.Name):
+                            deps.setdefault(t_.id, set()).update(names(v_))
+                    continue
+                if isinstance(tg, ast.Name) and isinstance(st.value, ast.Attribute) and \
+                        isinstance(st.value.value, ast.Name) and st.value.value.id == "self":
+                    # a local shorthand for the attribute's object: stores through
+                    # it are stores into the attribute
+                    aliases[tg.id] = "self." + st.value.attr
                 if isinstance(tg, ast.Name):
                     deps.setdefault(tg.id, set()).update(names(st.value))
                 elif isinstance(tg, ast.Attribute):
@@ -94,6 +109,8 @@ def z1(run: Run, prog: Program):
             for x in ast.walk(st.target):
                 if isinstance(x, ast.Name):
                     deps.setdefault(x.id, set()).update(names(st.iter))
+    for a_, attr_ in aliases.items():
+        deps.setdefault(attr_, set()).update(deps.get(a_, set()) - {attr_})
     closure = set()
     work = ["self.sparse_Adm"]
     while work:
